@@ -98,6 +98,8 @@ func (g *Gen) Target() *Config {
 					return "ANY"
 				case n < 6:
 					return GroupPath + "ext-group"
+				case n < 7:
+					return GroupPath + ExternalGroup
 				}
 				return g.addr()
 			}
@@ -362,6 +364,14 @@ func (g *Gen) Device(t *Config, nedits int) (*Store, []string) {
 					s.Groups = append(s.Groups, newGroup(nn, gr.Expression[0].IPAddresses))
 					ops = append(ops, "group-identical-unused")
 				}
+			}
+		}
+	}
+	// Group with the Netspoc prefix that only exists on the device.
+	for _, p := range t.Policies {
+		for _, r := range p.Rules {
+			if (r.SourceGroups[0] == GroupPath+ExternalGroup || r.DestinationGroups[0] == GroupPath+ExternalGroup) && s.group(ExternalGroup) == nil {
+				s.Groups = append(s.Groups, newGroup(ExternalGroup, []string{"192.168.3.1", "192.168.3.2"}))
 			}
 		}
 	}
